@@ -12,6 +12,7 @@ import (
 
 const c18Find = "find all 'a'"
 const c18Replace = "replace all 'a' with 'xy'"
+const c18ReplaceEmpty = "replace all 'a' with ''"
 const c18Bad = "find every 'a'"
 
 func VerifC18(program int, files int, mode int, twin int) {
@@ -45,6 +46,7 @@ func VerifC18(program int, files int, mode int, twin int) {
 	prog := ""
 	valid := true
 	isReplace := false
+	replText := "xy"
 	switch program {
 	case 0:
 		strFlags = append(strFlags, "com", c18Find)
@@ -64,6 +66,11 @@ func VerifC18(program int, files int, mode int, twin int) {
 	case 5: // both
 		strFlags = append(strFlags, "com", c18Find, "src", "prog.vore")
 		valid = false
+	case 6: // a replacement that is the empty string
+		strFlags = append(strFlags, "com", c18ReplaceEmpty)
+		prog = c18ReplaceEmpty
+		isReplace = true
+		replText = ""
 	}
 	fileArg := ""
 	var expectFiles []string
@@ -182,7 +189,7 @@ func VerifC18(program int, files int, mode int, twin int) {
 		spliced := ""
 		for i := 0; i < len(content); i++ {
 			if content[i] == 'a' {
-				spliced += "xy"
+				spliced += replText
 			} else {
 				spliced += string(content[i])
 			}
@@ -213,13 +220,15 @@ func VerifC18(program int, files int, mode int, twin int) {
 		vFail("harness: library JSON does not parse")
 	}
 	c18BaseNames(want)
+	// the library's result is the in-memory match list: every document the tool emits is compared with it
+	// (c18SameAsMatches) as well as with the library's own rendering
 	if useJSON || useFJSON {
 		doc, ok := jparse(stdout)
 		c18BaseNames(doc)
 		if !ok {
 			vFail("standard output under -json/-formatted-json is not exactly one JSON document")
 		}
-		if !jequal(doc, want) {
+		if !jequal(doc, want) || !c18SameAsMatches(doc, expected) {
 			vFail("the JSON on standard output differs from the library's result")
 		}
 	}
@@ -227,7 +236,7 @@ func VerifC18(program int, files int, mode int, twin int) {
 		txt, has := vfsRead("out.json")
 		doc, ok := jparse(txt)
 		c18BaseNames(doc)
-		if !has || !ok || !jequal(doc, want) {
+		if !has || !ok || !jequal(doc, want) || !c18SameAsMatches(doc, expected) {
 			vNote("out.json", txt)
 			vNote("library", expected.Json())
 			vFail("-json-file does not contain exactly the library's result as JSON")
@@ -237,7 +246,7 @@ func VerifC18(program int, files int, mode int, twin int) {
 		txt, has := vfsRead("outf.json")
 		doc, ok := jparse(txt)
 		c18BaseNames(doc)
-		if !has || !ok || !jequal(doc, want) {
+		if !has || !ok || !jequal(doc, want) || !c18SameAsMatches(doc, expected) {
 			vFail("-formatted-json-file does not contain exactly the library's result as JSON")
 		}
 	}
@@ -276,4 +285,57 @@ func c18BaseNames(doc *jv) {
 			}
 		}
 	}
+}
+
+func c18Base(name string) string {
+	for j := len(name) - 1; j >= 0; j-- {
+		if name[j] == '/' {
+			return name[j+1:]
+		}
+	}
+	return name
+}
+
+func c18RangeIs(o *jv, start int, end int) bool {
+	if o == nil || o.kind != 5 || len(o.keys) != 2 {
+		return false
+	}
+	s, e := o.get("start"), o.get("end")
+	return s != nil && e != nil && s.kind == 2 && e.kind == 2 && s.n == start && e.n == end
+}
+
+// c18SameAsMatches: the document is an array with one object per in-memory match, carrying exactly that
+// match (the programs of this harness bind no variables).
+func c18SameAsMatches(doc *jv, ms engine.Matches) bool {
+	if doc == nil || doc.kind != 4 || len(doc.arr) != len(ms) {
+		return false
+	}
+	for i, m := range ms {
+		o := doc.arr[i]
+		keys := 7
+		if m.Replacement.HasValue() {
+			keys = 8
+		}
+		if o == nil || o.kind != 5 || len(o.keys) != keys {
+			return false
+		}
+		fn, mn, val, vars := o.get("filename"), o.get("matchNumber"), o.get("value"), o.get("variables")
+		if fn == nil || fn.kind != 3 || c18Base(fn.s) != c18Base(m.Filename) || mn == nil || mn.kind != 2 || mn.n != m.MatchNumber || val == nil || val.kind != 3 || val.s != m.Value {
+			return false
+		}
+		if vars == nil || vars.kind != 5 || len(vars.keys) != m.Variables.Len() {
+			return false
+		}
+		if !c18RangeIs(o.get("offset"), m.Offset.Start, m.Offset.End) || !c18RangeIs(o.get("line"), m.Line.Start, m.Line.End) || !c18RangeIs(o.get("column"), m.Column.Start, m.Column.End) {
+			return false
+		}
+		rep := o.get("replacement")
+		if m.Replacement.HasValue() != (rep != nil) {
+			return false
+		}
+		if rep != nil && (rep.kind != 3 || rep.s != m.Replacement.GetValue()) {
+			return false
+		}
+	}
+	return true
 }
